@@ -14,6 +14,41 @@ fn main() {
     let mut tr = Trace::new(BufWriter::new(File::create(&out).expect("create trace file")));
     let mut tool_errors = Vec::new();
     let mut panics = 0;
+    // scripted histories that exhibit the open known findings (so that every run of the checks prints them)
+    if profile == "kf_f17" || profile == "kf_f20" {
+        use serde_json::json;
+        use verif_harness::sim::Sim;
+        let cfg = if profile == "kf_f17" {
+            Cfg { ents: vec!["e1".into(), "e2".into()], rel: true, ..Default::default() }
+        } else {
+            Cfg { ents: vec!["e1".into()], policy: "black".into(), ..Default::default() }
+        };
+        let mut sim = Sim::new(cfg);
+        tr.start_run(&sim, 0, json!({"scripted": profile}));
+        tr.step(&mut sim, "SrvFrame", json!({"tick": false, "dt": 0}));
+        tr.step(&mut sim, "Connect", json!({"c": "c1"}));
+        if profile == "kf_f17" {
+            // parent e1, child e2; the client knows the hierarchy; detach the child and despawn the parent
+            // within one tick window
+            tr.step(&mut sim, "Spawn", json!({"e": "e1", "comps": ["A"], "repl": true}));
+            tr.step(&mut sim, "Spawn", json!({"e": "e2", "comps": ["A"], "repl": true}));
+            tr.step(&mut sim, "Relate", json!({"e": "e2", "p": "e1"}));
+            tr.sync(&mut sim);
+            tr.step(&mut sim, "Unrelate", json!({"e": "e2"}));
+            tr.step(&mut sim, "SrvFrame", json!({"tick": false, "dt": 0}));
+            tr.step(&mut sim, "Despawn", json!({"e": "e1"}));
+        } else {
+            // hide an entity from the client, then remove its marker while it stays alive
+            tr.step(&mut sim, "Spawn", json!({"e": "e1", "comps": ["A"], "repl": true}));
+            tr.sync(&mut sim);
+            tr.step(&mut sim, "SetVis", json!({"c": "c1", "e": "e1", "v": false}));
+            tr.sync(&mut sim);
+            tr.step(&mut sim, "Unmark", json!({"e": "e1"}));
+        }
+        tr.settle(&mut sim, 3);
+        eprintln!("simtrace: profile={profile} runs=1 lines={} panics=0 tool_errors={}", tr.lines, sim.tool_errors.len());
+        return;
+    }
     for run in 0..runs {
         let s = seed.wrapping_mul(1_000_003).wrapping_add(run);
         let mut rng = Rng::new(s ^ 0xABCDEF);
@@ -54,9 +89,9 @@ fn main() {
                 },
                 Profile { steps: 70, comps: vec!["A"], marks: false, events: true, sess: profile == "events", ..Default::default() },
             ),
-            "rel" => (
+            "rel" | "rel_kf" => (
                 Cfg { ents: three(), clients: clients(2), max_size: vec![1200; 2], rel: true, ..Default::default() },
-                Profile { steps: 60, comps: vec!["A"], rel: true, marks: false, ..Default::default() },
+                Profile { steps: 60, comps: vec!["A"], rel: true, marks: false, clean: profile == "rel", ..Default::default() },
             ),
             "prespawn" => (
                 Cfg { ents: three(), clients: clients(2), max_size: vec![1200; 2], ..Default::default() },
